@@ -1,4 +1,5 @@
 import Treepath.Proofs.RefoldApi
+import Treepath.Proofs.RefoldNested
 import Treepath.Model.Descr
 import Treepath.Proofs.MutateLemmas
 import Treepath.Proofs.NaturalNext
@@ -111,6 +112,41 @@ theorem attr_deletion_is_one_tree_update (stepsOf : Heap → List (Step Val)) (r
     (hpop : popMatch stepsOf (.doc root) mm h = (h', .ok (some m))) :
     ∃ p nm j', m.parent = some p ∧ J.popAt j p.loc nm = some j' ∧ DocInv h' root j' := by
   obtain ⟨p, nm, j', e1, _, e2, e3, _⟩ := popMatch_refines stepsOf root j h h' mm m hi hpop
+  exact ⟨p, nm, j', e1, e2, e3⟩
+
+/-- **"changes made through the typed object are changes to the original document"**, on the JSON
+tree: a typed attribute hands out a nested document over the node `mo` its path selects (the
+node itself: `typed_is_alias`); assigning an attribute of that nested document (`nested.x = w`,
+no cascade, fresh value) makes the *original* document unfold to the old tree with
+`to_json_value(w)` at the location of the outer node followed by the inner attribute's location —
+and changes nothing else; the document stays a tree, so this composes over any depth of nesting
+and any history -/
+theorem write_through_typed_object_is_one_tree_update (c : Conv) (outer inner : Heap → List (Step Val))
+    (root : Val) (j jv : J) (h h' : Heap) (w : Val) (mo m : MNode Val) (hi : DocInv h root j)
+    (hmo : getMatch (wcx h) (outer h).toArray (.doc root) true = .ok (some mo))
+    (hv : UnfJ h jv (c.unwrap w)) (hvn : (fpJ h jv (c.unwrap w)).Nodup)
+    (hfresh : ∀ x ∈ fpJ h jv (c.unwrap w), x ∉ fpJ h j root)
+    (hset : descrSet c inner h mo.data w = (h', .ok m)) :
+    typedData .get outer h root = .ok mo.data ∧
+    ∃ (pm : MNode Val) (nm : Name) (j' : J), J.setAt j (mo.loc ++ pm.loc) nm jv = some j' ∧ DocInv h' root j' := by
+  refine ⟨typed_is_alias outer h root mo hmo, ?_⟩
+  have hgen := getMatch_gen (wcx h) (heapwf_keysUniq hi.wf) _ root true mo hmo
+  simp only [descrSet, descrSetS, setMatch] at hset
+  cases hn : (inner h).length with
+  | zero => rw [hn] at hset; simp [setMatchN] at hset
+  | succ n =>
+    rw [hn] at hset
+    obtain ⟨pm, nm, j', _, e2, e3, _⟩ := nested_set_refines inner root j jv n h h' _ mo m hi hgen hv hvn hfresh hset
+    exact ⟨pm, nm, j', e2, e3⟩
+
+/-- … and `del nested.x` removes the entry from the original document's tree -/
+theorem delete_through_typed_object_is_one_tree_update (outer inner : Heap → List (Step Val))
+    (root : Val) (j : J) (h h' : Heap) (mo m : MNode Val) (hi : DocInv h root j)
+    (hmo : getMatch (wcx h) (outer h).toArray (.doc root) true = .ok (some mo))
+    (hdel : popMatch inner (.doc mo.data) true h = (h', .ok (some m))) :
+    ∃ p nm j', m.parent = some p ∧ J.popAt j (mo.loc ++ p.loc) nm = some j' ∧ DocInv h' root j' := by
+  have hgen := getMatch_gen (wcx h) (heapwf_keysUniq hi.wf) _ root true mo hmo
+  obtain ⟨p, nm, j', e1, _, e2, e3, _⟩ := nested_pop_refines inner root j h h' true mo m hi hgen hdel
   exact ⟨p, nm, j', e1, e2, e3⟩
 
 end Treepath.C18
